@@ -43,7 +43,6 @@
   is PROVED sufficient (`styled_triangle_pixels_complete`), like the fuels of the scanline `for` loop
   and of the `loop` inside `StyledPixelsIterator::next` (at most three scanlines per row).
 -/
-import EG.Lemmas.C01ThickBudget
 import EG.Lemmas.TriTopRow
 import EG.Lemmas.JoinsTransparent
 import EG.Props.C02.JoinsBBox
